@@ -340,7 +340,7 @@ fn menu() -> Vec<Op> {
 
 /// replays a history on real objects from the empty word; Err = a panic
 fn replay_hist(hist: &[Op]) -> Result<(Vec<isize>, Vec<isize>), String> {
-    let r = std::panic::catch_unwind(std::panic::AssertUnwindSafe(|| {
+    let r = crate::engine::catch_subject(|| {
         let mut cur = FreeWord::empty();
         let mut model: Vec<isize> = vec![];
         for op in hist {
@@ -348,7 +348,7 @@ fn replay_hist(hist: &[Op]) -> Result<(Vec<isize>, Vec<isize>), String> {
             model = op.apply_ref(&model);
         }
         (letters(&cur), model)
-    }));
+    });
     r.map_err(|e| panic_message(&e))
 }
 
